@@ -6,6 +6,7 @@ From Coq.Strings Require Import Byte.
 Import ListNotations.
 From Zap Require Import Base.Wire C09.Sem C09.Race C09.Deadlock C09.Facts C09.Inst C09.Orig C09.Model Gen.AccessFacts.
 From Zap Require C09.Diag.   (* printed before any obligation below can break *)
+From Zap Require C09.Release Gen.ReleaseFacts.
 
 Ltac bools :=
   repeat match goal with
@@ -73,6 +74,46 @@ Proof. vm_compute. reflexivity. Qed.
 
 Lemma units_nonempty : 50 <= List.length units.
 Proof. vm_compute. repeat constructor. Qed.
+
+(* the release skeletons extracted from the repository: on EVERY path through every function
+   that hands a recycled object back, the object is handed back at most once per acquisition
+   and not touched afterwards *)
+Lemma release_facts_thm : Release.release_all_ok ReleaseFacts.release_units = true.
+Proof. vm_compute. reflexivity. Qed.
+
+Lemma release_paths_thm : forall name body, In (name, body) ReleaseFacts.release_units ->
+  forall tr, Release.fn_trace body tr -> Release.good false tr = true.
+Proof.
+  intros name body Hin. apply Release.release_sound.
+  pose proof release_facts_thm as F. unfold Release.release_all_ok in F. rewrite forallb_forall in F.
+  exact (F _ Hin).
+Qed.
+
+Lemma release_units_nonempty : 20 <= List.length ReleaseFacts.release_units.
+Proof. vm_compute. repeat constructor. Qed.
+
+(* the shape of seed c09d: the object is acquired, its release deferred, and one early-return
+   path releases it by hand as well *)
+Definition c09d_shape : Release.stm :=
+  Release.SSeq (Release.SEv Release.EAcq) (Release.SSeq (Release.SDefer (Release.SEv Release.ERel))
+    (Release.SSeq (Release.SEv Release.EUse)
+      (Release.SSeq (Release.SIf (Release.SSeq (Release.SEv Release.ERel) Release.SRet) Release.SSkip) (Release.SEv Release.EUse)))).
+
+Lemma c09d_shape_rejected : Release.release_ok c09d_shape = false /\
+  exists tr, Release.fn_trace c09d_shape tr /\ Release.good false tr = false.
+Proof.
+  split; [vm_compute; reflexivity|].
+  exists [Release.EAcq; Release.EUse; Release.ERel; Release.ERel].
+  split; [|reflexivity].
+  exists ([Release.EAcq] ++ [] ++ [Release.EUse] ++ ([Release.ERel] ++ []))%list, [Release.SEv Release.ERel], Release.ORet, ([Release.ERel] ++ [])%list.
+  split; [|split; [|reflexivity]].
+  - unfold c09d_shape. eapply Release.XSeqN; [apply Release.XEv|].
+    eapply Release.XSeqN; [apply Release.XDefer|].
+    eapply Release.XSeqN; [apply Release.XEv|].
+    eapply Release.XSeqA; [|discriminate].
+    apply Release.XIfL. eapply Release.XSeqN; [apply Release.XEv|apply Release.XRet].
+  - eapply Release.UCons; [apply Release.XEv|apply Release.UNil].
+Qed.
 
 (* ---------------------------------------------------------------- pre-fix lazyWithCore *)
 Lemma facts_orig_refuted :
